@@ -24,8 +24,17 @@ def compact(n):
     return U(n).replace(' ', '')
 
 
+KEEP_METHODS = ('__init__', 'get_deltap', 'kernel', 'dwdq', 'gradient', 'gradient_h', 'py_kernel', 'py_dwdq', 'py_gradient', 'py_gradient_h', 'py_get_deltap')
+
+
 def kernel_classes(tree):
-    return [c for c in M.classes(tree) if 'kernel' in M.methods(c) and 'gradient' in M.methods(c)]
+    """the kernel classes, with helper methods a maintainer may have factored out of kernel / dwdq / gradient / gradient_h inlined again (model.inline_helpers)"""
+    out = []
+    for c in M.classes(tree):
+        if 'kernel' in M.methods(c) and 'gradient' in M.methods(c):
+            extra = [m for m in M.methods(c) if m not in KEEP_METHODS]
+            out.append(M.inlined_class(c, keep=KEEP_METHODS) if extra else c)
+    return out
 
 
 # ---------------------------------------------------------------------------
@@ -67,7 +76,7 @@ def rule_twin(chk):
     py = M.py(KER)
     cy = M.cy(CK)
     pyk = dict((c.name, c) for c in kernel_classes(py))
-    cyk = dict((c.name, c) for c in M.classes(cy))
+    cyk = dict((c.name, (M.inlined_class(c, keep=KEEP_METHODS) if [m for m in M.methods(c) if m not in KEEP_METHODS and 'kernel' in M.methods(c)] else c)) for c in M.classes(cy))
     chk.floor('python kernel classes', len(pyk), 10)
     nm = 0
     for name, pc in sorted(pyk.items()):
